@@ -1610,6 +1610,16 @@ func (e *lfEngine) doUnOp(fr *lfFrame, st *lfState, x *ssa.UnOp) {
 				return
 			}
 			v := e.fresh(st, x.Type(), apOf(x.X).String())
+			if e.bits && p.Elem != nil && e.emitting() {
+				// a byte of an output buffer read before anything was stored into it on this
+				// path: whatever an earlier packet left there
+				switch n := p.Elem.Org.Name; {
+				case n == "d", strings.HasPrefix(n, "arr:"), strings.HasPrefix(n, "f:"):
+				default:
+					idx := p.Elem.Idx
+					st.events = append(st.events, lfEvent{Kind: "stale", Name: n + "[" + e.linString(idx) + "]", Val: "read before written", Pos: x.Pos(), Org: n, Idx: &idx})
+				}
+			}
 			if e.bits && p.Elem != nil {
 				if iv, isI := v.(vInt); isI && len(iv.E.T) == 1 && iv.E.C == 0 {
 					for sy := range iv.E.T {
